@@ -2,7 +2,7 @@
    Only statements here; the model is Model/Engine.v, the proofs are in Proofs/EngineP.v. *)
 From Coq Require Import ZArith List Bool Permutation.
 From V.Model Require Import Bits Shape Ast Denote PyRTL PyEval Stmt Process Engine.
-From V.Proofs Require Import EngineP.
+From V.Proofs Require Import ProcessP EngineP.
 Import ListNotations.
 Open Scope Z_scope.
 
@@ -239,3 +239,114 @@ Example C08_delay_example :
   map (fun t => t_active (tb_trig t)) (e_tbs (tl_advance ex_delay_st)) = [true].
 Proof. split; vm_compute; reflexivity. Qed.
 Print Assumptions C08_delay_example.
+
+(* ---------------------------------------------------------------- write_disjoint for every compiled process system *)
+(* the general sufficient condition: members mask-local for pairwise-disjoint mask tables *)
+Theorem C08_disjoint_masks_write_disjoint ps pms :
+  Forall2 mask_local ps pms -> masks_disjoint pms -> write_disjoint ps.
+Proof. exact (disjoint_masks_write_disjoint ps pms). Qed.
+Print Assumptions C08_disjoint_masks_write_disjoint.
+
+(* compiled RTL processes over ARBITRARY statement lists (nested If/Switch, slices, concatenations, part selects, array
+   targets) are mask-local for their LHSMaskCollector masks; comb processes do not read `next` at all *)
+Theorem C08_rtl_processes_mask_local ss tab n l inputs clk pol rst arst :
+  ProcessP.design_ok ss tab -> Forall (stmt_lhs_ok ss) l ->
+  mask_local (rtl_comb tab n l inputs) (pmask tab l) /\ mask_local (rtl_sync tab n l clk pol rst arst) (pmask tab l).
+Proof.
+  intros Hd Hl. split; [apply (rtl_comb_mask_local ss tab Hd)|apply (rtl_sync_mask_local ss tab Hd)]; auto.
+Qed.
+Print Assumptions C08_rtl_processes_mask_local.
+
+(* every process system the simulator builds (compiled fragments, added clocks, the two documented user-process patterns):
+   "each signal bit is driven by at most one process" is all that is needed *)
+Theorem C08_compiled_write_disjoint ss tab n ds :
+  ProcessP.design_ok ss tab -> Forall (cdesc_ok ss) ds -> masks_disjoint (map (cmask tab) ds) ->
+  write_disjoint (map (cproc tab n) ds).
+Proof. exact (compiled_write_disjoint ss tab n ds). Qed.
+Print Assumptions C08_compiled_write_disjoint.
+
+(* run_order_independent restated with that hypothesis only *)
+Theorem C08_run_order_independent_compiled ss tab n ds orc orc' sfuel tfuel t_end fuel st :
+  ProcessP.design_ok ss tab -> Forall (cdesc_ok ss) ds -> masks_disjoint (map (cmask tab) ds) -> oracle_equiv orc orc' ->
+  run (map (cproc tab n) ds) orc sfuel tfuel t_end fuel st = run (map (cproc tab n) ds) orc' sfuel tfuel t_end fuel st.
+Proof. exact (run_order_independent_compiled ss tab n ds orc orc' sfuel tfuel t_end fuel st). Qed.
+Print Assumptions C08_run_order_independent_compiled.
+
+(* non-vacuity: 3 compiled processes, 2 clock domains, a signed register split between the domains *)
+Example C08_compiled_example :
+  ProcessP.design_ok ex3_ss ex3_tab /\ Forall (cdesc_ok ex3_ss) ex3_ds /\ masks_disjoint (map (cmask ex3_tab) ex3_ds) /\
+  map (fun d => cmask ex3_tab d 3%nat) ex3_ds = [0; 15; -16].
+Proof.
+  split; [exact ex3_design_ok|]. split; [exact ex3_ok|]. split; [exact ex3_disjoint|]. vm_compute. reflexivity.
+Qed.
+Print Assumptions C08_compiled_example.
+
+(* ---------------------------------------------------------------- clocks in the composed system *)
+(* one time step: clock k (any index; the other processes -- further clocks of any period and phase, compiled RTL,
+   user processes -- and the testbenches are arbitrary) either stays in run-count j or makes exactly run j+1;
+   clk_due j says: runnable, and now = the time of run j of the isolated clock; clk_sleep j: waker armed at exactly the
+   time of run j+1, not yet passed *)
+Theorem C08_clock_advance_step ps k slot phase period orc j sfuel tfuel st :
+  nth k ps no_proc = clock_proc slot phase period -> 0 <= phase -> 0 <= period ->
+  (forall n, In k (o_proc (orc n))) -> (0 < sfuel)%nat ->
+  clk_inv k slot phase period j st ->
+  clk_inv k slot phase period j (fst (advance ps orc sfuel tfuel st)) \/
+  clk_inv k slot phase period (S j) (fst (advance ps orc sfuel tfuel st)).
+Proof. intros H1 H2 H3 H4 H5. exact (advance_clock ps k slot phase period H1 H2 H3 orc H4 j sfuel tfuel st H5). Qed.
+Print Assumptions C08_clock_advance_step.
+
+(* whole runs from the initial state: whatever else is simulated, after any number of time steps clock k has made j' runs,
+   run 0 at time 0 and run i+1 (toggle i) at exactly phase + i * (period // 2) *)
+Theorem C08_clock_edges_exact_composed ps k slot phase period orc sfuel tfuel t_end fuel inits pst tbs :
+  nth k ps no_proc = clock_proc slot phase period -> 0 <= phase -> 0 <= period ->
+  (forall n, In k (o_proc (orc n))) -> (0 < sfuel)%nat ->
+  (k < length pst)%nat -> nth k pst no_pstate = clock_pstate ->
+  (exists j', clk_inv k slot phase period j' (run ps orc sfuel tfuel t_end fuel (init_state inits pst tbs))) /\
+  (forall i, snd (clk_sys slot phase period (S i)) = phase + Z.of_nat i * (period / 2)).
+Proof.
+  intros H1 H2 H3 H4 H5 H6 H7. split.
+  - destruct (run_clock ps k slot phase period H1 H2 H3 orc H4 sfuel tfuel t_end fuel 0
+                (init_state inits pst tbs) H5 (or_introl (clk_due_init k slot phase period inits pst tbs H6 H7)))
+      as (j' & _ & H). exists j'. exact H.
+  - intros i. exact (proj2 (clk_time_closed_form slot phase period i)).
+Qed.
+Print Assumptions C08_clock_edges_exact_composed.
+
+(* two clocks (periods 7 and 10, phases 4 and 0) and a compiled register: the hypotheses hold for both clocks *)
+Definition ex_cc_ps : list proc :=
+  [clock_proc 0 4 7; clock_proc 1 0 10; cproc ex3_tab 5 (nth 1 ex3_ds (CClock 0 0 0))].
+Example C08_clock_composed_example :
+  nth 0 ex_cc_ps no_proc = clock_proc 0 4 7 /\ nth 1 ex_cc_ps no_proc = clock_proc 1 0 10 /\
+  (forall n, In 0%nat (o_proc (id_oracle 3 1 5 n)) /\ In 1%nat (o_proc (id_oracle 3 1 5 n))) /\
+  (let st := run ex_cc_ps (id_oracle 3 1 5) 20 5 100 6
+                (init_state [0; 0; 3; -3; 0] [clock_pstate; clock_pstate; rtl_pstate false] [[OAwait [TDelay 30] false]]) in
+   (e_now st, map ps_run (e_procs st), map ps_timer (e_procs st)))
+    = (13, [true; false; false], [None; Some 15; None]).   (* clock 0 due at 4 + 3*3, clock 1 asleep until 0 + 3*5 *)
+Proof.
+  split; [reflexivity|]. split; [reflexivity|]. split; [intros n; simpl; auto|]. vm_compute. reflexivity.
+Qed.
+Print Assumptions C08_clock_composed_example.
+
+(* ---------------------------------------------------------------- testbenches run in insertion order *)
+(* for ANY list of testbench scripts: one pass of advance() over the testbench list extends the trace by one segment per
+   testbench, in insertion order (seq 0 n), the segment of testbench k holding only records made by testbench k *)
+Theorem C08_testbench_order_is_insertion_order ps orc sfuel st ran :
+  exists segs,
+    e_trace (fst (tb_pass ps orc sfuel (seq 0 (length (e_tbs st))) (st, ran))) = e_trace st ++ concat segs /\
+    Forall2 (fun k seg => Forall (fun r => fst r = k) seg) (seq 0 (length (e_tbs st))) segs.
+Proof. exact (testbench_order_is_insertion_order ps orc sfuel st ran). Qed.
+Print Assumptions C08_testbench_order_is_insertion_order.
+
+(* ... and each testbench starts from the state its predecessors left, including everything their set() calls settled *)
+Theorem C08_tb_pass_sequential ps orc sfuel ks ks' acc :
+  tb_pass ps orc sfuel (ks ++ ks') acc = tb_pass ps orc sfuel ks' (tb_pass ps orc sfuel ks acc).
+Proof. exact (tb_pass_sequential ps orc sfuel ks ks' acc). Qed.
+Print Assumptions C08_tb_pass_sequential.
+
+Example C08_testbench_order_example :
+  e_trace (fst (tb_pass ex_tb_ps (id_oracle 1 3 2) 10 (seq 0 3) (fst (settle ex_tb_ps (id_oracle 1 3 2) 10 ex_tb_st), false)))
+  = [(0%nat, [-1; 0]); (0%nat, [-1; 6]); (0%nat, [-9; 0]);
+     (1%nat, [-1; 5]); (1%nat, [-1; 6]); (1%nat, [-9; 0]);
+     (2%nat, [-1; 9]); (2%nat, [-1; 10]); (2%nat, [-9; 0])].
+Proof. vm_compute. reflexivity. Qed.
+Print Assumptions C08_testbench_order_example.
